@@ -131,6 +131,15 @@ def run(ctx, rep):
     from props import storage_forms as sf_
     sf_.settings_passthrough(ctx, rep, 'R15.i', ('max_topic_size',))
 
+    # ------------------------------------------------------------ R15.k the cleaner follows the flag that the send path follows
+    rep.rule('R15.k', 'a configuration flag read straight from the config and handed to a boolean parameter goes to the parameter of its own name: the maintenance job trims a full topic under topic.delete_oldest_segments, the flag Topic::append_messages tests before refusing a send', floor=1, analysis='A9')
+    from props import storage_forms as sfk_
+    sfk_.config_flags_by_name(ctx, rep, 'R15.k')
+
+    # ------------------------------------------------------------ R15.j what the cleaner leaves behind loads as it was
+    rep.rule('R15.j', 'a partition whose segments were all removed by the cleaner restarts where it stood: the loader restores the offset state with its confirmed forms (an empty last segment that does not start at 0 keeps the increment flag)', floor=4, analysis='A9/A10')
+    sfk_.check(ctx, rep, 'R15.j', part_fields=('current_offset', 'should_increment_offset'), seg_fields=())
+
 
 def resolved_limit_forms(ctx, rep, rid):
     """shared with C05: create, update and load store the limit resolved by the same function (what the runtime accepts, the loader accepts)"""
